@@ -155,7 +155,9 @@ def compare_walker(s, pos, tol, rng, rec):
         return tokt(w.get_token(pos, include_brace_chars=ibc, environments=envs, **kw), legacy=True)
     cmp('get_token', (ibc, envs, psvariant), run(old_tok), run(new_tok))
     # ---- braced group
-    bt = rng.choice(['{', '[', '(', '<', ('<', '>')])
+    # the four standard brace types, or any (opening, closing) pair -- also pairs that are not standard partners
+    bt = rng.choice(['{', '[', '(', '<', ('<', '>'), ('(', ']'), ('[', ')'), ('<', '|'), ('{', ']'), ('|', '!'), ('(', ')')])
+    rec.hist('brace_type', str(bt))
 
     def old_bg():
         n, p, l = w.get_latex_braced_group(pos, brace_type=bt)
